@@ -88,7 +88,8 @@ Definition flags_eqb (a b : list (bool * bool)) : bool :=
   list_eqb (fun x y => Bool.eqb (fst x) (fst y) && Bool.eqb (snd x) (snd y)) a b.
 Definition event_eqb (a b : event) : bool :=
   match a, b with
-  | EOpen p, EOpen q | EStopS p, EStopS q | EStartS p, EStartS q | ECloseS p, ECloseS q => Nat.eqb p q
+  | EOpen p, EOpen q | EStopS p, EStopS q | EStartS p, EStartS q | ECloseS p, ECloseS q
+  | EHalt p, EHalt q => Nat.eqb p q
   | EWrite p c, EWrite q d => Nat.eqb p q && zlist_eqb c d
   | ETerminate, ETerminate | EPlayRaise, EPlayRaise | EAssertFail, EAssertFail => true
   | ECloseRet f, ECloseRet g => flags_eqb f g
@@ -140,7 +141,8 @@ Definition holds_sched (c : scase) : bool :=
   && Nat.eqb (count_ev is_terminate evs) (f_terminated f) && (f_terminated f <=? 1)
   && Nat.eqb (count_ev is_assert_fail evs) 0
   && Nat.eqb (count_ev is_play_raise evs) (expected_raises (c_script c))
-  && close_ok exp evs && nobody_alive evs
+  && close_ok (c_wait c) (c_script c) exp evs && nobody_alive evs
+  && halt_prompt (length exp) evs
   && (if has_close (c_script c) then final_closed f else true)
   && locks_free f.
 
